@@ -1,7 +1,8 @@
 From Coq Require Import List ZArith Bool.
 From Coq Require Import ExtrOcamlBasic.
-From ABT Require Import Conc.Sched.
+From ABT Require Import Conc.Sched Conc.SchedStop.
 Extraction Language OCaml.
 Extraction "../ocaml/extracted/sched.ml"
   Z.add Z.mul Z.opp Z.sub Z.div Z.modulo Z.eqb Z.of_nat
-  Sched.step Sched.init Sched.run.
+  Sched.step Sched.init Sched.run
+  SchedStop.zero_then_empty SchedStop.unit_in_hands SchedStop.unit_done SchedStop.calm.
